@@ -27,7 +27,7 @@ private theorem ids_sub {rules S : List Rule} (h : IdsIdentify rules) (hs : ∀ 
 private theorem live_sub (rules : List Rule) : ∀ f ∈ live rules, f ∈ rules := by
   intro f hf; unfold live at hf; exact (List.mem_filter.1 hf).1
 
-private def pickC (rules : List Rule) (c : Cat) : List Rule := (live rules).filter (fun f => cat f == c)
+def pickC (rules : List Rule) (c : Cat) : List Rule := (live rules).filter (fun f => cat f == c)
 
 private theorem pick_sub (rules : List Rule) (c : Cat) : ∀ f ∈ pickC rules c, f ∈ rules := by
   intro f hf; unfold pickC at hf; exact live_sub rules f (List.mem_filter.1 hf).1
@@ -86,7 +86,7 @@ private theorem cat_lookup (rules S : List Rule) (q : Request) (tg : List Str) (
 
 private theorem hits_tagged_prefilter (S : List Rule) (q : Request) (T : List Str)
     (hcat : ∀ f ∈ S, f.tag.isSome = true) :
-    hits (S.filter (fun n => match n.tag with | some t => T.contains t | none => false)) q T = hits S q T := by
+    hits (S.filter (tagEnabled T)) q T = hits S q T := by
   unfold hits
   rw [List.filter_filter]
   apply List.filter_congr
@@ -94,7 +94,7 @@ private theorem hits_tagged_prefilter (S : List Rule) (q : Request) (T : List St
   have := hcat f hf
   cases ht : f.tag with
   | none => rw [ht] at this; cases this
-  | some t => simp [tagOk, ht]
+  | some t => simp [tagOk, tagEnabled, ht]
 
 private theorem cat_tagged_tag {f : Rule} (h : cat f = .tagged) : f.tag.isSome = true := by
   unfold cat at h
@@ -223,10 +223,13 @@ structure Blocker.Repr (b : Blocker) (rules : List Rule) (T : List Str) : Prop w
   exceptions : b.exceptions = Index.build (pickC rules .exception) false
   filters : b.filters = Index.build (pickC rules .normal) false
   tagged : b.filtersTagged = Index.build ((pickC rules .tagged).filter
-    (fun n => match n.tag with | some t => T.contains t | none => false)) false
+    (tagEnabled T)) false
   redirects : b.redirects = Index.build ((live rules).filter Rule.isRedirect) false
   removeparam : b.removeparam = Index.build (pickC rules .removeparam) false
   csp : b.csp = Index.build (pickC rules .csp) false
+  genericHide : b.genericHide = Index.build (pickC rules .genericHide) false
+  taggedAll : b.taggedAll = pickC rules .tagged
+  optimize : b.optimize = false
   tags : b.tagsEnabled = T
 
 theorem new_useTags_repr (rules : List Rule) (tags : List Str) (hsep : idsSeparate rules = true) :
@@ -252,7 +255,7 @@ theorem check_of_repr (b : Blocker) (rules : List Rule) (T : List Str) (st : Sto
   have nrpN : ∀ f ∈ pickC rules .normal, f.isRemoveparam = false :=
     fun f hf => cat_not_rp (cat_of_pick hf) (by simp) (by simp)
   have nrpG : ∀ f ∈ (pickC rules .tagged).filter
-      (fun n => match n.tag with | some t => T.contains t | none => false), f.isRemoveparam = false :=
+      (tagEnabled T), f.isRemoveparam = false :=
     fun f hf => cat_not_rp (cat_of_pick (List.mem_filter.1 hf).1) (by simp) (by simp)
   obtain ⟨_, hI, hIm⟩ := cat_lookup rules _ q T ok (pick_sub rules .important) nrpI
   obtain ⟨_, hE, _⟩ := cat_lookup rules _ q T ok (pick_sub rules .exception) nrpE
